@@ -416,6 +416,8 @@ class SetKinds:
             return self.is_set(node.left, depth + 1) or self.is_set(node.right, depth + 1)
         if isinstance(node, ast.IfExp):
             return self.is_set(node.body, depth + 1) or self.is_set(node.orelse, depth + 1)
+        if isinstance(node, ast.Subscript) and isinstance(node.value, ast.Name) and node.value.id in self._dict_of_sets():
+            return True
         if isinstance(node, ast.Name):
             if node.id == "self":
                 return self.self_is_set
@@ -425,6 +427,22 @@ class SetKinds:
                 return False
             return all(d.value is not None and d.value is not node and self.is_set(d.value, depth + 1) for d in vals)
         return False
+
+    def _dict_of_sets(self):
+        """local names bound to a mapping whose values are sets: defaultdict(set) or D[k] = set()"""
+        if hasattr(self, "_dos"):
+            return self._dos
+        out = set()
+        for n in iter_body_nodes(self.fn):
+            if isinstance(n, ast.Assign):
+                v = n.value
+                for t in n.targets:
+                    if isinstance(t, ast.Name) and isinstance(v, ast.Call) and dotted(v.func) in ("defaultdict", "collections.defaultdict") and v.args and dotted(v.args[0]) in ("set", "frozenset"):
+                        out.add(t.id)
+                    if isinstance(t, ast.Subscript) and isinstance(t.value, ast.Name) and (isinstance(v, (ast.Set, ast.SetComp)) or (isinstance(v, ast.Call) and dotted(v.func) in ("set", "frozenset"))):
+                        out.add(t.value.id)
+        self._dos = out
+        return out
 
     def _ctor_of_set(self, f):
         if isinstance(f, ast.Name) and f.id in ("set", "frozenset"):
@@ -465,7 +483,7 @@ def _order_free_use(node, fn):
 def set_order_sites(model, mod, cls, fn):
     """Yield (node, description) where an unordered collection is turned into an ordered value."""
     sk = SetKinds(model, mod, cls, fn)
-    if not sk.self_is_set and not any(
+    if not sk.self_is_set and not sk._dict_of_sets() and not any(
         isinstance(n, (ast.Set, ast.SetComp))
         or (isinstance(n, ast.Call) and isinstance(n.func, (ast.Name, ast.Attribute)) and sk._ctor_of_set(n.func))
         for n in iter_body_nodes(fn)
